@@ -4,10 +4,12 @@ from __future__ import annotations
 import itertools
 
 from common import streamcase as sc
+from common import streamcase2 as sc2
 import c07
 
 PROPERTY_ID = "C02"
 RUN_MODULE = "Run.C02"
+PARAMS_FROM = ["c06"]       # Run.C02 dispatches kind 4 (raw JSON) to Run.C06, which reads Gen/ParamsC06.v
 PROPS_FILE = "Props/C02.v"
 ALLOWED_AXIOMS = []
 ANCHORS = c07.ANCHORS + [
@@ -46,7 +48,38 @@ def mk_frame(kind, sep, limit, rng):
     return c07.payload_for(sep, n, rng)
 
 
+JSON_GOOD = [b"[1]", b'{"a":"b"}', b'"x\\"y"', b"12\n", b"null\n", b"[[]]", b'{"k":[1,{"z":"}"}]}', b'"["']
+JSON_BAD = [b"[1,]", b'{"a"}', b"[,]", b'{"a":}', b"nul\n", b"[1 2]", b'"\\x"']      # balanced for the scanner, rejected by the decoder
+
+
+def json_cases(tier, rng, escalate):
+    """raw JSON, documents within the limit, some of them undecodable: events must be document-by-document decoding"""
+    thorough = tier == "thorough" or escalate
+    for _ in range(60 if thorough else 12):
+        n = rng.choice([1, 2, 3, 4])
+        docs = [rng.choice(JSON_BAD if rng.random() < 0.4 else JSON_GOOD) for _ in range(n)]
+        stream = b"".join(docs)
+        if len(stream) <= (9 if thorough else 7):
+            chunkings = list(sc.all_chunkings(stream))
+        else:
+            chunkings = [[stream], [stream[i:i + 1] for i in range(len(stream))]]
+            cuts = list(range(1, len(stream)))
+            for c in (cuts if thorough else rng.sample(cuts, min(len(cuts), 10))):
+                chunkings.append(sc.cuts_to_chunks(stream, [c]))
+            for _k in range(4 if thorough else 2):
+                chunkings.append(sc.cuts_to_chunks(stream, [rng.randrange(1, len(stream)) for _ in range(3)]))
+        for chunks in chunkings:
+            yield dict(input=sc2.make_simple_case(4, [200], [b"jsonraw"], chunks) + [docs],
+                       tags=["kind4", "jsonraw", "has-bad-doc" if any(d in JSON_BAD for d in docs) else "all-good"],
+                       nontrivial=bool(len(docs) >= 2 and any(d in JSON_BAD for d in docs[:-1])))
+
+
 def cases(tier, rng, escalate):
+    yield from json_cases(tier, rng, escalate)
+    yield from sep_cases(tier, rng, escalate)
+
+
+def sep_cases(tier, rng, escalate):
     thorough = tier == "thorough" or escalate
     reps = 10 if thorough else 2
     seps = [b"\n", b"\r\n", b"aa", b"aba", b"abc"]
@@ -94,15 +127,36 @@ def cases(tier, rng, escalate):
                                        nontrivial=bool(interesting or len(chunks) > 1 and unsafe))
 
 
-run_impl = sc.run_impl
+def run_impl(inp):
+    return sc2.run_impl(inp) if inp[0] == 4 else sc.run_impl(inp)
+
+
+def json_oracle(inp):
+    import json as _json
+    chunks, docs = inp[3], inp[5]
+    rounds = sc2.run_impl(inp)
+    events = [e for r in rounds for e in r[1]]
+    got = ["ok" if e[0] == 0 else ("err" if e[0] == 1 and e[1] != 0 else "other") for e in events]
+    want = []
+    for d in docs:
+        try:
+            _json.loads(d)
+            want.append("ok")
+        except ValueError:
+            want.append("err")
+    if got != want:
+        return f"raw JSON: events {got} differ from document-by-document decoding {want} (docs={docs!r})"
+    return None
 
 
 def oracle(inp):
+    if inp[0] == 4:
+        return json_oracle(inp)
     kind, cfg, _dec, chunks, impl = inp[:5]
     sep, limit = cfg[0], cfg[1]
     seplen = len(sep)
     stream = b"".join(chunks)
-    rounds = sc.run_impl(inp)
+    rounds = run_impl(inp)
     events = [e for r in rounds for e in r[1]]
     if any(e[0] == 2 for e in events):
         return "consumer crashed with RuntimeError"
